@@ -82,6 +82,12 @@ Theorem all_hosts_offered_without_exclusions : forall hs : list nat,
     filter (fun h => negb (mem_nat h [])) hs = hs.
 Proof. exact filter_not_in_nil. Qed.
 
+(* exclusions always refer to currently advertised/used addresses: adopting a changed address
+   list forgets them (host_change_clears_exclusions), so a stale entry can never survive it *)
+Theorem exclusions_within_hosts : forall s f t, reachable s ->
+    incl (excl (advance f t s)) (hosts (advance f t s)).
+Proof. intros s f t H. exact (i_excl _ (reachable_advance_inv _ f t H)). Qed.
+
 (* the candidate list of every connection attempt ever logged is non-empty (a stale exclusion or
    an address-list change can never leave the connector with nothing to dial) *)
 Theorem attempts_offer_candidates : forall hs sb ds vs cs e t cands d,
@@ -125,3 +131,4 @@ Print Assumptions no_host_excluded_forever.
 Print Assumptions all_hosts_offered_without_exclusions.
 Print Assumptions no_attempt_after_shutdown.
 Print Assumptions attempts_offer_candidates.
+Print Assumptions exclusions_within_hosts.
